@@ -315,5 +315,6 @@ def build_nodes(spec, xp="np", trace=None, clock="SIM", vtime=None):
             window=int(e.get("window", 1)),
             skip=bool(e.get("skip", False)),
             jitter=const.Jitter.BUFFER if e.get("jitter", "LATEST") == "BUFFER" else const.Jitter.LATEST,
+            name=e.get("name"),  # shadow input name (None = the producer's name); used by C14 sources only
         )
     return nodes, nodes[spec["supervisor"]]
